@@ -154,27 +154,7 @@ def run(rep, tier, seed):
         rep.case(('combine', tuple(texts), repr(rel), uniq), nontrivial=len(texts) >= 2,
                  sample={'expressions': texts, 'relation': rel, 'unique': uniq, 'outcome': got[0]})
         rep.count('combine')
-        err = None
-        if not texts:
-            if got != [0, []]:
-                err = 'empty input did not return None'
-        elif code == 2:
-            if got != [4]:
-                err = 'relation %r was not refused with TypeError: %r' % (rel, got)
-        else:
-            parsed = [enc_expr(L.parse(x, simple=True)) for x in texts]
-            if uniq:
-                seen, out = {}, []
-                for p in parsed:
-                    s = str(build_expr(p))
-                    if s in seen:
-                        continue
-                    seen[s] = 1
-                    out.append(p)
-                parsed = out
-            want = [0, [parsed[0]]] if len(parsed) == 1 else [0, [[1 + code, parsed]]]
-            if got != want:
-                err = 'combine_expressions(%r, %r, unique=%r) = %r, expected %r' % (texts, rel, uniq, got, want)
+        err = combine_error(texts, rel, code, uniq, got, L)
         if err:
             rep.violations.append({'key': 'combine', 'kind': 'combine', 'expressions': texts, 'relation': repr(rel),
                                    'unique': uniq, 'what': err, 'text': repr(texts)})
@@ -198,6 +178,28 @@ def run(rep, tier, seed):
             rep.violations.append({'key': 'nonlist', 'kind': 'combine', 'what': 'non-list input raised ' + type(ex).__name__, 'text': repr(bad)})
 
 
+def combine_error(texts, rel, code, uniq, got, L):
+    """What combine_expressions must return for a list of texts, a relation and the unique switch."""
+    if not texts:
+        return None if got == [0, []] else 'empty input did not return None'
+    if code == 2:
+        return None if got == [4] else 'relation %r was not refused with TypeError: %r' % (rel, got)
+    parsed = [enc_expr(L.parse(x, simple=True)) for x in texts]
+    if uniq:
+        seen, out = {}, []
+        for p in parsed:
+            s = str(build_expr(p))
+            if s in seen:
+                continue
+            seen[s] = 1
+            out.append(p)
+        parsed = out
+    want = [0, [parsed[0]]] if len(parsed) == 1 else [0, [[1 + code, parsed]]]
+    if got != want:
+        return 'combine_expressions(%r, %r, unique=%r) = %r, expected %r' % (texts, rel, uniq, got, want)
+    return None
+
+
 RELS = [('AND', 0), ('and', 0), ('And', 0), ('OR', 1), ('or', 1), ('oR', 1), ('xor', 2), ('', 2), (None, 2), (3, 2), ('AND ', 2)]
 
 
@@ -208,9 +210,8 @@ def replay(payload):
         code = dict((repr(r), c) for r, c in RELS)[payload['relation']]
         got = outcome_of(lambda: le.combine_expressions(list(payload['expressions']), relation=rel, unique=payload['unique']),
                          lambda e: enc_opt(e, enc_expr))
-        if code == 2 and payload['expressions']:
-            return got == [4], 'relation %r: outcome %r' % (rel, got)
-        return True, 'outcome %r' % (got,)
+        err = combine_error(list(payload['expressions']), rel, code, payload['unique'], got, le.Licensing())
+        return err is None, err or 'outcome %r' % (got,)
     if payload.get('kind') == 'tree':
         err, got, key = check_tree(payload['tree'], le.Licensing())
         return err is None, err or 'dedup matches the reference'
